@@ -125,6 +125,12 @@ fn c08_control_flow_programs() {
         progs.push((Box::leak(format!("dead code after {name}").into_boxed_str()), p, Some(9), None));
     }
     progs.push(("dead code after a stack underflow", vec![0x01, 0x60, 0x01, 0x60, 0x09, 0x55, 0x00], Some(9), None));
+    // the overflowing DUP's copy would be the key of the SSTORE right behind it (no further push needed)
+    for dup in [0x80u8, 0x81, 0x8f] {
+        let mut p: Vec<u8> = std::iter::repeat([0x60u8, 0x09]).take(1024).flatten().collect();
+        p.extend([dup, 0x55, 0x00]);
+        progs.push((Box::leak(format!("SSTORE fed by DUP{} on a full stack", dup - 0x7f).into_boxed_str()), p, Some(9), None));
+    }
     // both branches of JUMPI explored: CALLDATASIZE PUSH1 9 JUMPI  PUSH1 1 PUSH1 2 SSTORE STOP JUMPDEST PUSH1 1 PUSH1 3 SSTORE STOP
     let p = vec![0x36, 0x60, 0x0a, 0x57, 0x60, 0x01, 0x60, 0x02, 0x55, 0x00, 0x5b, 0x60, 0x01, 0x60, 0x03, 0x55, 0x00];
     progs.push(("jumpi fallthrough", p.clone(), None, Some(2)));
